@@ -229,6 +229,10 @@ def run(ctx):
     # a read that fails must say so (a swallowed error in len()/is_empty() is a wrong answer)
     D.error_discipline(ctx, "R-C01.8", scope=lambda f: f.startswith(("readable::", "<snapshot::", "snapshot::", "iter::", "<iter::", "guard::", "keyspace::Keyspace::")))
 
+    # ---- R-C01.11 the write builders record what they are named for (the batch item kinds, the ingestion wrappers, the
+    #      overlay's tombstone filter): a `remove` that queues a Value, or a wrapper that hands on another key, changes answers
+    write_builders(ctx, "R-C01.11")
+
     # ---- borrowed obligations (mechanisms owned by other properties that this property's verdict also rests on)
     # all items of a batch share one seqno: their order decides which write to a key wins
     ctx.borrow("C04", ["R-C04.8"], "R-C01.10")
@@ -266,3 +270,105 @@ def journal_kind_rules(ctx, rule):
             detail = "journals ValueType::%s and applies tree.%s with the same key%s" % (kind, leaf, "/value" if leaf == "insert" else "") if ok else \
                 "journal kind %s vs apply %s; same key=%s same value=%s — what is recovered after a crash differs from what was applied" % (sorted(kinds), aleaf, samekey, sameval)
         ctx.ob(rule, fn, "journal-kind-equals-apply-kind", ok, detail)
+
+
+BUILDERS = (("batch::WriteBatch::insert", "Value", True), ("batch::WriteBatch::remove", "Tombstone", False),
+            ("batch::WriteBatch::remove_weak", "WeakTombstone", False))
+INGEST = ("write", "write_tombstone", "write_weak_tombstone")
+
+
+def _params(t):
+    return {x.a[0] for x in A.walk(t) if x.k == "param"}
+
+
+def write_builders(ctx, rule):
+    F = ctx.F
+    n = 0
+    # (1) batch builders: exactly one item is queued per call, on every path, built from the caller's keyspace / key / value
+    #     and the kind the method is named for
+    for fid, kind, has_value in BUILDERS:
+        fn = ctx.fn(fid, rule)
+        if not fn:
+            continue
+        og = ctx.og(fn)
+        news = [(b, t) for b, t in fn.calls() if A.cname(t) == "batch::item::Item::new"]
+        push = [(b, t) for b, t in fn.calls() if A.cname(t).endswith("::push") and "Vec" in A.cname(t)]
+        ok = len(news) == 1 and len(push) == 1
+        detail = "%d Item::new / %d push calls (want one of each)" % (len(news), len(push))
+        if ok:
+            a = [og.of_operand(x) for x in news[0][1]["args"]]
+            pa = [og.of_operand(x) for x in push[0][1]["args"]]
+            kinds = A.variants_in(a[3], "ValueType")
+            want_val = _params(a[2]) == {4} if has_value else not _params(a[2])
+            pushed_new = any(x.k == "call" and x.a[0] == "batch::item::Item::new" for x in A.walk(pa[1]))
+            into_data = A.tstr(pa[0]).endswith(".data") and _params(pa[0]) == {1}
+            every = all(A.dominates(fn, push[0][0], rb) for rb in fn.return_blocks()) and not A.in_cycle(fn, push[0][0])
+            ok = kinds == {kind} and _params(a[0]) == {2} and _params(a[1]) == {3} and want_val and pushed_new and into_data and every
+            detail = ("queues Item(keyspace, key, %s, ValueType::%s) exactly once" % ("value" if has_value else "<empty>", kind)) if ok else \
+                "builds Item::new(%s) and pushes %s into %s (on every path: %s) — the batch would not do what `%s` says" % (
+                    ", ".join(A.tstr(x)[:40] for x in a), A.tstr(pa[1])[:60], A.tstr(pa[0])[:30], every, fid.rsplit("::", 1)[-1])
+        n += 1
+        ctx.ob(rule, fn, "queues-one-item-of-its-own-kind", ok, detail)
+    # Item::new keeps the four components apart
+    fn = ctx.fn("batch::item::Item::new", rule)
+    if fn:
+        og = ctx.og(fn)
+        ret = og.of_local(0)
+        fields = {}
+        for x in A.walk(ret):
+            if x.k == "agg" and "Item" in str(x.a[0]):
+                for nm, v in (x.a[1] or ()):
+                    fields[nm] = _params(v)
+        want = {"keyspace": {1}, "key": {2}, "value": {3}, "value_type": {4}}
+        ok = all(fields.get(k) == v for k, v in want.items())
+        n += 1
+        ctx.ob(rule, fn, "components-stay-apart", ok, "Item{keyspace,key,value,value_type} = the four arguments in order" if ok else
+               "Item::new stores %s (want keyspace<-1, key<-2, value<-3, value_type<-4)" % fields)
+    # (2) the ingestion wrappers forward to the like-named operation with the caller's operands, on every path
+    for leaf in INGEST:
+        cands = [f for f in F.fns if f.startswith("ingestion::Ingestion") and f.endswith("::" + leaf)]
+        if len(cands) != 1:
+            ctx.fn("ingestion::Ingestion::" + leaf, rule)
+            continue
+        fn = ctx.fn(cands[0], rule)
+        og = ctx.og(fn)
+        fw = [(b, t) for b, t in fn.calls() if "Ingestion" in A.cname(t) and A.cname(t).startswith("lsm_tree::")]
+        ok = len(fw) == 1 and A.cname(fw[0][1]).rsplit("::", 1)[-1] == leaf
+        detail = "forwards to %s" % [A.cname(t) for _, t in fw]
+        if ok:
+            a = [og.of_operand(x) for x in fw[0][1]["args"]]
+            ok = all(_params(a[i]) == {i + 1} for i in range(len(a))) and len(a) == fn.argc and \
+                all(A.dominates(fn, fw[0][0], rb) for rb in fn.return_blocks())
+            retp = any(x.k == "call" and x.a[0] == A.cname(fw[0][1]) for x in A.walk(og.of_local(0)))
+            ok = ok and retp
+            detail = "inner.%s(%s), its result returned" % (leaf, ", ".join(A.tstr(x)[:20] for x in a[1:])) if ok else \
+                "calls %s(%s); result returned: %s" % (A.cname(fw[0][1]), ", ".join(A.tstr(x)[:30] for x in a), retp)
+        n += 1
+        ctx.ob(rule, fn, "forwards-to-the-like-named-ingestion-op", ok, detail)
+    # (3) the overlay's tombstone filter: None exactly when the overlay entry is a tombstone
+    fn = ctx.fn("tx::write_tx::ignore_tombstone_value", rule)
+    if fn:
+        og = ctx.og(fn)
+        cb = [b for b, t in fn.calls() if A.cname(t).endswith("InternalValue::is_tombstone")]
+        ok = False
+        detail = "is_tombstone is not what decides"
+        if len(cb) == 1:
+            sw = A.switch_after_call(fn, cb[0])
+            if sw is not None:
+                edges = A.bool_edges(fn, sw)
+                if edges and edges[0] and edges[1]:
+                    t_false, t_true = edges[0][0], edges[1][0]
+                    def answers(start):
+                        out = set()
+                        r = A.reach(fn, [start])
+                        for b in r:
+                            for st in fn.blocks[b]["s"]:
+                                if st["p"]["l"] == 0 and not st["p"]["p"] and st["rv"]["k"] == "agg":
+                                    out.add(st["rv"].get("variant"))
+                        return out
+                    a_t, a_f = answers(t_true), answers(t_false)
+                    ok = a_t == {"None"} and a_f == {"Some"}
+                    detail = "tombstone -> None, anything else -> Some(item)" if ok else "tombstone -> %s, other -> %s" % (sorted(a_t), sorted(a_f))
+        n += 1
+        ctx.ob(rule, fn, "none-exactly-for-a-tombstone", ok, detail)
+    ctx.floor(rule, "write builders examined", n, 8)
